@@ -28,9 +28,13 @@ Proof.
   rewrite Forall_forall in *. intros ce Hce. auto.
 Qed.
 
-Lemma step_bounded s o : bounded (cols RN s) -> bounded (cols RN (snd (step RN c p s o))).
+Lemma Forall_map2_l' {A B C} (f : A -> B -> C) (P : A -> Prop) (Q : C -> Prop) l l' :
+  (forall a b, P a -> Q (f a b)) -> Forall P l -> Forall Q (map2 f l l').
+Proof. apply Forall_map2_l. Qed.
+
+Lemma step_bounded s o : op_bounded p o -> bounded (cols RN s) -> bounded (cols RN (snd (step RN c p s o))).
 Proof.
-  intros Hb. destruct o as [a lock xs|keep|m]; cbn [step].
+  intros Hop Hb. destruct o as [a lock xs|keep|m|a|d|v|r|v r a]; cbn [step].
   - destruct (forward RN c p (eff_adapt a (training RN s)) lock (cols RN s) xs) as [sp cs'] eqn:E. cbn [snd cols].
     replace cs' with (snd (forward RN c p (eff_adapt a (training RN s)) lock (cols RN s) xs)) by (rewrite E; reflexivity).
     apply all_cells_and.
@@ -39,6 +43,18 @@ Proof.
   - cbn [snd cols]. unfold bounded, clear, all_cells. rewrite Forall_map. apply Forall_forall. intros col _. cbn [cells].
     rewrite Forall_map. apply Forall_forall. intros ce _. cbn [snd]. pose proof (HRt c p Hok). rn_simpl. lra.
   - exact Hb.
+  - cbn [snd cols]. unfold bounded, set_adapt, all_cells in *. eapply Forall_map2_l; [|exact Hb]. intros col arow H. exact H.
+  - cbn [snd cols]. unfold bounded, add_adapt, all_cells in *. eapply Forall_map2_l; [|exact Hb]. intros col drow H. exact H.
+  - cbn [snd cols]. unfold bounded, set_voltage, all_cells in *. eapply Forall_map2_l; [|exact Hb]. intros col vrow H. cbn [cells].
+    eapply Forall_map2_l; [|exact H]. intros ce x Hce. exact Hce.
+  - cbn [snd cols]. cbn [op_bounded] in Hop. unfold bounded, set_refrac, all_cells, rows_bounded in *.
+    eapply Forall_map2_r; [|exact Hop]. intros col rrow H. cbn [cells].
+    eapply Forall_map2_r; [|exact H]. intros ce x Hx. exact Hx.
+  - cbn [snd cols]. cbn [op_bounded] in Hop. unfold bounded, load_state, all_cells, rows_bounded in *.
+    clear Hb. generalize (cols RN s). intros cs. revert cs v a.
+    induction Hop as [|rrow r Hr Hop IH]; intros [|col cs] [|vrow v] [|arow a]; cbn [map4]; try constructor.
+    + cbn [cells]. eapply Forall_map2_r; [|exact Hr]. intros x y Hy. exact Hy.
+    + apply IH.
 Qed.
 
 Lemma init_bounded n b : bounded (cols RN (init RN c p n b)).
@@ -51,43 +67,44 @@ Qed.
 (* REMAINING REFRACTORY TIME over any operation sequence (forward with any flags/inputs, clear, train) started
    from a constructed neuron: always within [0, refrac_t] *)
 Theorem run_refrac_bounds :
-  forall ops s, bounded (cols RN s) ->
+  forall ops s, Forall (op_bounded p) ops -> bounded (cols RN s) ->
     Forall (fun r => bounded (cols RN (snd r))) (run RN c p s ops).
 Proof.
-  induction ops as [|o tl IH]; intros s Hb; cbn [run]; constructor.
-  - apply step_bounded. exact Hb.
-  - apply IH. apply step_bounded. exact Hb.
+  induction ops as [|o tl IH]; intros s Hops Hb; cbn [run]; constructor; inversion Hops; subst.
+  - apply step_bounded; assumption.
+  - apply IH; [assumption|]. apply step_bounded; assumption.
 Qed.
 
 Theorem run_from_init_refrac_bounds :
-  forall n b ops, Forall (fun r => bounded (cols RN (snd r))) (run RN c p (init RN c p n b) ops).
-Proof. intros. apply run_refrac_bounds. apply init_bounded. Qed.
+  forall n b ops, Forall (op_bounded p) ops ->
+    Forall (fun r => bounded (cols RN (snd r))) (run RN c p (init RN c p n b) ops).
+Proof. intros. apply run_refrac_bounds; [assumption|apply init_bounded]. Qed.
 
 (* SPIKE ATTRIBUTE over any operation sequence: with refrac_t > 0, after every forward call of every operation
    sequence started from a constructed neuron, the `spike` attribute equals the tensor that call returned *)
 Theorem run_spike_attr :
-  0 < Rt -> forall ops s, bounded (cols RN s) ->
+  0 < Rt -> forall ops s, Forall (op_bounded p) ops -> bounded (cols RN s) ->
     Forall (fun r => match fst r with
                      | Some returned => spike_attr RN p (cols RN (snd r)) = returned
                      | None => True
                      end) (run RN c p s ops).
 Proof.
-  intros HR. induction ops as [|o tl IH]; intros s Hb; cbn [run]; constructor.
-  - destruct o as [a lock xs|keep|m]; cbn [step]; try exact I.
+  intros HR. induction ops as [|o tl IH]; intros s Hops Hb; cbn [run]; constructor; inversion Hops; subst.
+  - destruct o as [a lock xs|keep|m|a|d|v|r|v r a]; cbn [step]; try exact I.
     destruct (forward RN c p (eff_adapt a (training RN s)) lock (cols RN s) xs) as [sp cs'] eqn:E. cbn [fst snd cols].
     pose proof (population_spike_attr_eq_output c p Hok HR (eff_adapt a (training RN s)) lock (cols RN s) xs) as H.
     cbn zeta in H. rewrite E in H. cbn [fst snd] in H. apply H.
     eapply all_cells_impl; [|exact Hb]. cbn. intros ce Hc; apply Hc.
-  - apply IH. apply step_bounded. exact Hb.
+  - apply IH; [assumption|]. apply step_bounded; assumption.
 Qed.
 
 Theorem run_from_init_spike_attr :
-  0 < Rt -> forall n b ops,
+  0 < Rt -> forall n b ops, Forall (op_bounded p) ops ->
     Forall (fun r => match fst r with
                      | Some returned => spike_attr RN p (cols RN (snd r)) = returned
                      | None => True
                      end) (run RN c p (init RN c p n b) ops).
-Proof. intros. apply run_spike_attr; [assumption|apply init_bounded]. Qed.
+Proof. intros. apply run_spike_attr; [assumption|assumption|apply init_bounded]. Qed.
 
 (* a list of forward operations runs exactly like fwd_run (link between the operation model and the theorems of
    NeuronProofs, which are stated over fwd_run) *)
